@@ -249,6 +249,38 @@ def _byte_origin(prog, fn, o, depth):
         return None
     if o.kind == "call":
         c = o.ref
+        tg = [t for t in prog.call_targets(c) if t in prog.fns and prog.fns[t].crate.startswith("ast_grep")]
+        if len(tg) == 1 and c.name not in ("len",):
+            # an extracted helper returning the offsets (possibly as a tuple): evaluate its return expression, with its bare
+            # parameters replaced by the caller's argument expressions
+            h = prog.fns[tg[0]]
+            idx = None
+            for p_ in o.proj:
+                if p_.startswith(".") and p_[1:].split("|")[0].isdigit():
+                    idx = int(p_[1:].split("|")[0])
+                    break
+            exprs = []
+            for bi in sorted(h.live_blocks):
+                for st in h.blocks[bi]["s"]:
+                    if st[0] == "A" and st[1][0] == 0 and not st[1][1]:
+                        if st[2][0] == "agg" and idx is not None and idx < len(st[2][2]):
+                            exprs.append(st[2][2][idx])
+                        elif st[2][0] == "use" and idx is None:
+                            exprs.append(st[2][1])
+            if len(exprs) != 1 or exprs[0][0] == "k":
+                return None
+            out = []
+            for o2 in h.trace_operand(exprs[0]):
+                if o2.kind == "param" and not field_path(o2.proj):
+                    if o2.ref - 1 >= len(c.args) or c.args[o2.ref - 1][0] == "k":
+                        return None
+                    sub = byte_expr(prog, fn, c.args[o2.ref - 1], depth + 1)
+                else:
+                    sub = _byte_origin(prog, h, o2, depth + 1)
+                if sub is None:
+                    return None
+                out.extend(sub)
+            return out
         if c.name in ("len",):
             r = deep_roots(prog, fn, c.args[0])
             for x in r:
